@@ -7,7 +7,7 @@ package token
 // total are stored as listed. A duplicate symbol or min unit aborts the import (AddToken fails), so on every returning
 // path the listed tokens are pairwise distinct and none overwrites another.
 //@ func InitGenesis(ctx, k, data)
-//@   property C12
+//@   property C09, C12
 //@   requires forall i:Int :: forall j:Int :: 0 <= i && i < j && j < len(data.BurnedCoins) ==> data.BurnedCoins[i].Denom != data.BurnedCoins[j].Denom
 //@   requires forall d:Str :: !has(burned, d)
 //@   modifies tokens, byMinUnit, byOwner, byContract, burned, prm
@@ -22,8 +22,8 @@ package token
 //@                          && has(byMinUnit, data.Tokens[j].MinUnit) && get(byMinUnit, data.Tokens[j].MinUnit) == data.Tokens[j].Symbol
 //@   invariant #2 burnt: forall j:Int :: 0 <= j && j <= rangeindex ==> has(burned, data.BurnedCoins[j].Denom) && get(burned, data.BurnedCoins[j].Denom) == data.BurnedCoins[j]
 //@   invariant #2 rest:  forall j:Int :: rangeindex < j && j < len(data.BurnedCoins) ==> !has(burned, data.BurnedCoins[j].Denom)
-//@   ensures params:   has(prm) && get(prm) == data.Params
-//@   ensures imported: forall j:Int :: 0 <= j && j < len(data.Tokens) ==> has(tokens, data.Tokens[j].Symbol) && get(tokens, data.Tokens[j].Symbol) == data.Tokens[j]
+//@   ensures @C12 params:   has(prm) && get(prm) == data.Params
+//@   ensures @C12 imported: forall j:Int :: 0 <= j && j < len(data.Tokens) ==> has(tokens, data.Tokens[j].Symbol) && get(tokens, data.Tokens[j].Symbol) == data.Tokens[j]
 //@                          && has(byMinUnit, data.Tokens[j].MinUnit) && get(byMinUnit, data.Tokens[j].MinUnit) == data.Tokens[j].Symbol
-//@   ensures burned_imported: forall j:Int :: 0 <= j && j < len(data.BurnedCoins) ==> has(burned, data.BurnedCoins[j].Denom) && get(burned, data.BurnedCoins[j].Denom) == data.BurnedCoins[j]
+//@   ensures @C09,C12 burned_imported: forall j:Int :: 0 <= j && j < len(data.BurnedCoins) ==> has(burned, data.BurnedCoins[j].Denom) && get(burned, data.BurnedCoins[j].Denom) == data.BurnedCoins[j]
 //@ end
